@@ -9,8 +9,8 @@ from checks import c48
 
 META = {
     "engine": "mtest", "level": "exploration", "design_ref": "DESIGN.md §4.6 C49",
-    "technique": "differential runs of the real mtest binary: one random well-posed problem solved under a covering array of (15 acceleration settings x 4 prediction policies x 4 stiffness matrix types x 4 rounding modes x sub-stepping on/off); converged result files compared column by column with a tolerance derived from @StrainEpsilon/@StressEpsilon and a stiffness estimate",
-    "text": "Random mixed-control problems on elastic, Norton (two implementations) and plasticity behaviours generated from the reference .mfront files are each solved under every row of a pairwise covering array of the solver options (quick) or the array plus 100 random rows of the full product, 100 problems (thorough). All runs of a problem that complete with the same accepted time steps must give the same strains, stresses and internal state variables at every output time within c.(eeps, seps): per step the distance of a converged iterate to the discrete solution is at most eeps + seps/k_min for strains and seps + 3E.(that) for stresses (k_min: smallest tangent modulus, estimated from the material and the observed stress level); these laws are non-expansive so the bound grows at most linearly with the number of steps, and c = 10 x steps is used (the evidence reports the worst spread/tolerance). Configurations that do not converge or are not supported by the behaviour are counted, not judged; runs that sub-stepped solve a different time discretisation and are compared only for the path-independent elastic behaviour.",
+    "technique": "differential runs of the real mtest binary: one random well-posed problem solved under a covering array of (15 acceleration settings x 4 prediction policies x 4 stiffness matrix types x 4 rounding modes x sub-stepping on/off x 3 verbosity levels x 4 iteration limits); converged result files compared column by column with a tolerance derived from @StrainEpsilon/@StressEpsilon and a stiffness estimate",
+    "text": "Random mixed-control problems on elastic, Norton (two implementations) and plasticity behaviours generated from the reference .mfront files are each solved under every row of a pairwise covering array of the solver options (quick) or the array plus 100 random rows of the full product, 100 problems (thorough). All runs of a problem that complete with the same accepted time steps must give the same strains, stresses and internal state variables at every output time within c.(eeps, seps): per step the distance of a converged iterate to the discrete solution is at most eeps + seps/k_min for strains and seps + 3E.(that) for stresses (k_min: smallest tangent modulus, estimated from the material and the observed stress level); these laws are non-expansive so the bound grows at most linearly with the number of steps, and c = 10 x steps is used (the evidence reports the worst spread/tolerance). Besides the comparison between runs, every state accepted by the solver (every row of the @OutputFrequency 'EveryPeriod' result file, sub-steps included) is checked against the stated convergence criteria: imposed strains within eeps, imposed stresses within seps and the stress of every uncontrolled component (the equilibrium residual) within seps; an accepted state that is not converged is a violation whatever the other runs say. Small @MaximumNumberOfIterations values make slowly converging option sets reach the iteration limit and sub-step, at every verbosity level (the evidence counts such runs per level). Configurations that do not converge or are not supported by the behaviour are counted, not judged; runs that sub-stepped solve a different time discretisation and are compared only for the path-independent elastic behaviour.",
     "note": "Trusted: the stiffness estimate behind the tolerance (problems with E/k_min > 1e4 are skipped and counted). The 'Random' rounding mode is not used (not replayable). Energies are not compared.",
 }
 
@@ -24,7 +24,12 @@ PRED_PROBED = ["ElasticPredictionFromMaterialProperties", "SecantOperatorPredict
 KTYPE = ["Elastic", "SecantOperator", "TangentOperator", "ConsistentTangentOperator"]
 RDM = ["ToNearest", "UpWard", "DownWard", "TowardZero"]
 SUBS = [1, 10]
-FACTORS = [ACC, PRED, KTYPE, RDM, SUBS]
+# verbosity: the solver's decisions must not depend on what it prints (level1 is the level at which iteration reports are written)
+VERB = ["quiet", "level0", "level1"]
+# @MaximumNumberOfIterations: default, and small values so that slowly converging option sets (elastic stiffness, no
+# acceleration...) reach the limit and sub-step (or fail when sub-stepping is off)
+ITER = [None, 3, 5, 12]
+FACTORS = [ACC, PRED, KTYPE, RDM, SUBS, VERB, ITER]
 HYPS = ["Tridimensional", "Axisymmetrical", "GeneralisedPlaneStrain", "AxisymmetricalGeneralisedPlaneStrain", "PlaneStrain"]
 
 
@@ -83,7 +88,7 @@ def gen_problem(seed, i, libs):
 
 
 def config_lines(cfg):
-    acc, pred, kt, rdm, sub = cfg
+    acc, pred, kt = cfg[:3]
     L = []
     if acc == "UseCastem":
         L.append("@UseCastemAccelerationAlgorithm true;")
@@ -94,15 +99,64 @@ def config_lines(cfg):
     return L
 
 
+class _Rows:
+    """result restricted to some rows (same interface as mt_common.Res for what compare() uses)"""
+
+    def __init__(self, names, rows):
+        self.names, self.rows = names, rows
+
+    def col(self, name):
+        return self.names.index(name)
+
+
+def free_components(pb):
+    """(strain name, stress name) of the components left uncontrolled: mtest solves S = 0 for them.  In PlaneStrain the
+    axial strain is not an unknown."""
+    ctl = {c[1:] for _, c, _ in pb["cons"]}
+    out = []
+    for e in M.ALL_E[pb["hyp"]]:
+        if e[1:] in ctl or (pb["hyp"] == "PlaneStrain" and e == "EZZ"):
+            continue
+        out.append((e, "S" + e[1:]))
+    return out
+
+
+def accepted_states_residual(pb, res):
+    """every accepted state (requested times and sub-steps, rows of the EveryPeriod output) against the convergence criteria the
+    input file states: imposed strains within eeps, imposed stresses within seps, stress of the uncontrolled components (the
+    equilibrium residual) within seps.  -> (worst ratio, description of the worst offender or None)"""
+    worst, what = 0.0, None
+    free = free_components(pb)
+    for k in range(1, len(res.rows)):
+        row = res.rows[k]
+        t, tp = row[0], res.rows[k - 1][0]
+        for kind, comp, ev in pb["cons"]:
+            eps = pb["eeps"] if kind == "E" else pb["seps"]
+            ref = ev(t)
+            tol = eps + 4e-15 * abs(ref) + c48.time_slack(ev, t, 8) + 1e-13 * abs(ref - ev(tp)) + 5e-324
+            err = abs(row[res.col(comp)] - ref)
+            r = err / tol if math.isfinite(err) else math.inf
+            if r > worst:
+                worst, what = r, "imposed %s %s at t=%r is %r, its evolution gives %r (criterion %.3g)" % (
+                    "strain" if kind == "E" else "stress", comp, t, row[res.col(comp)], ref, eps)
+        for e, sname in free:
+            v = row[res.col(sname)]
+            r = abs(v) / (pb["seps"] * (1 + 1e-9)) if math.isfinite(v) else math.inf
+            if r > worst:
+                worst, what = r, "uncontrolled component %s: stress %s = %r at t=%r, i.e. the equilibrium residual exceeds @StressEpsilon %.3g" % (
+                    e, sname, v, t, pb["seps"])
+    return worst, what
+
+
 def run_config(ctx, pb, k, cfg):
     d = ctx.work / ("p%d" % pb["i"]) / ("c%d" % k)
     d.mkdir(parents=True, exist_ok=True)
     txt = M.mtest_text(pb["lib"], M.SPECS[pb["behaviour"]][1], pb["hyp"], pb["mp"], pb["times"], pb["cons"], pb["eeps"], pb["seps"],
-                       extra=config_lines(cfg), maxsub=cfg[4])
+                       extra=config_lines(cfg) + ["@OutputFrequency 'EveryPeriod';"], maxsub=cfg[4], itermax=cfg[6])
     (d / "a.mtest").write_text(txt)
-    r = M.run_mtest(d, "a.mtest", args=["--verbose=level1", "--rounding-direction-mode=" + cfg[3]], timeout=120)
+    r = M.run_mtest(d, "a.mtest", args=["--verbose=" + cfg[5], "--rounding-direction-mode=" + cfg[3]], timeout=120)
     crash = ctx.classify_crash(r, recognised_terminate=True)
-    o = {"cfg": cfg, "status": None, "res": None, "substeps": 0, "text": txt, "iters": 0}
+    o = {"cfg": cfg, "status": None, "res": None, "full": None, "substeps": 0, "text": txt}
     if crash == "hang":
         o["status"] = "timeout"
     elif crash:
@@ -111,13 +165,23 @@ def run_config(ctx, pb, k, cfg):
     elif not M.completed(r):
         o["status"] = "failed:" + c48.failure_reason(r.out)
     else:
-        att, st = M.parse_log(r.out)
-        o["substeps"] = st.get("sub-steps", 0)
-        o["iters"] = st.get("iterations", 0)
         res = M.Res(d / "a.res")
-        if res.ok and len(res.rows) == len(pb["times"]):
-            o["status"], o["res"] = "ok", res
-        else:
+        # the result file lists every accepted period (the verbosity must not matter, so nothing is read from the log);
+        # the rows of the requested times are found by their time
+        req = pb["times"]
+        if res.ok and len(res.rows) >= len(req):
+            # (under a directed rounding mode the times are *printed* with the last digit rounded that way: matched within 1e-12)
+            sel, j = [], 0
+            for row in res.rows:
+                if j < len(req) and abs(row[0] - req[j]) <= 1e-12 * max(abs(req[j]), req[-1] - req[0]):
+                    sel.append(row)
+                    j += 1
+            if j == len(req):
+                o["status"] = "ok"
+                o["full"] = res
+                o["res"] = _Rows(res.names, sel)
+                o["substeps"] = len(res.rows) - len(req)
+        if o["status"] is None:
             o["status"] = "unreadable"
     return o
 
@@ -151,8 +215,25 @@ def column_kind(name):
     return None
 
 
+def cfg_key(cfg):
+    return "%s:%s:%s:%s:sub%d:%s:it%s" % (cfg[0], cfg[1], cfg[2], cfg[3], cfg[4], cfg[5], cfg[6] or "default")
+
+
 def compare(ctx, pb, outs, mutate=None):
     ok = [o for o in outs if o["status"] == "ok"]
+    if mutate:
+        mutate(pb, ok)
+    # (a) every accepted state of every completed run satisfies the convergence criteria, whatever the other runs say
+    for o in ok:
+        w, what = accepted_states_residual(pb, o["full"])
+        ctx.count("accepted_states_checked", len(o["full"].rows) - 1)
+        ctx.maxstat("max_accepted_state_residual_over_criterion", float("%.3g" % min(w, 1e30)))
+        if w > 1.0:
+            cfg = o["cfg"]
+            ctx.violation("accepted-state-not-converged:%s:%s" % (pb["behaviour"], cfg_key(cfg)),
+                          "%s (%s): a state accepted by the solver does not meet the convergence criteria: %s (eeps=%.3g, seps=%.3g, %d sub-steps, "
+                          "configuration %s)" % (pb["behaviour"], pb["hyp"], what, pb["eeps"], pb["seps"], o["substeps"], cfg),
+                          {"mtest_file": o["text"], "rounding_mode": cfg[3], "verbose": cfg[5]})
     # same discrete problem: runs that sub-stepped are kept only for the path-independent law
     same = [o for o in ok if o["substeps"] == 0 or pb["law"] == "elastic"]
     ctx.count("runs_ok", len(ok))
@@ -161,8 +242,6 @@ def compare(ctx, pb, outs, mutate=None):
     if len(same) < 3:
         ctx.count("problems_with_fewer_than_3_comparable_runs")
         return
-    if mutate:
-        mutate(pb, same)
     names = same[0]["res"].names
     nrow = len(pb["times"])
     med = [[statistics.median(o["res"].rows[k][c] for o in same) for c in range(len(names))] for k in range(nrow)]
@@ -208,7 +287,7 @@ def compare(ctx, pb, outs, mutate=None):
     if worst[0] > 1.0:
         k, c, n, far, tol, vals = worst[1]
         cfg = far["cfg"]
-        ctx.violation("%s:%s:%s:%s:%s:sub%d" % (pb["behaviour"], cfg[0], cfg[1], cfg[2], cfg[3], cfg[4]),
+        ctx.violation("%s:%s" % (pb["behaviour"], cfg_key(cfg)),
                       "%s (%s): column %s at t=%r spreads over %.6g (min %r, max %r, median %r) among %d converged configurations, tolerance %.3g "
                       "(eeps=%.3g, seps=%.3g, E/kmin<=%.3g); farthest from the median: %s -> %r" %
                       (pb["behaviour"], pb["hyp"], n, pb["times"][k], max(vals) - min(vals), min(vals), max(vals), med[k][c], len(vals), tol,
@@ -240,7 +319,7 @@ def run(ctx, mutate=None):
                     seen.add(r)
                     rows.append(r)
         cfgs = [tuple(f[j] for f, j in zip(FACTORS, r)) for r in rows]
-        cfgs += [("none", p, "ConsistentTangentOperator", "ToNearest", 1) for p in PRED_PROBED]
+        cfgs += [("none", p, "ConsistentTangentOperator", "ToNearest", 1, "level1", None) for p in PRED_PROBED]
         pbs.append((pb, cfgs))
         for k, cfg in enumerate(cfgs):
             tasks.append((pb, k, cfg))
@@ -257,8 +336,12 @@ def run(ctx, mutate=None):
             ctx.count("failed:acc=%s" % o["cfg"][0])
             ctx.count("failed:pred=%s" % o["cfg"][1])
         elif st == "ok":
-            for f, v in zip(("acc", "pred", "ktype", "rdm", "sub"), o["cfg"]):
+            for f, v in zip(("acc", "pred", "ktype", "rdm", "sub", "verb", "itermax"), o["cfg"]):
                 ctx.count("ok:%s=%s" % (f, v))
+            if o["substeps"] > 0:
+                ctx.count("ok_runs_that_substepped:verbose=%s" % o["cfg"][5])
+                if o["cfg"][6]:
+                    ctx.count("ok_runs_that_hit_small_iteration_limit_and_substepped:verbose=%s" % o["cfg"][5])
         if st.startswith("crash:"):
             ctx.violation("mtest-crash:%s:%s" % (st[6:], t[0]["behaviour"]), "mtest died (%s) under configuration %s\n%s" % (st, o["cfg"], o.get("tail", "")),
                           {"mtest_file": o["text"], "rounding_mode": o["cfg"][3]})
@@ -273,7 +356,10 @@ def run(ctx, mutate=None):
         ctx.inconc("%d runs hit the watchdog" % nto)
     ctx.require(cnt.get("problems_compared", 0) >= nprob // 2, "only %d of %d problems could be compared" % (cnt.get("problems_compared", 0), nprob))
     ctx.cov["probed_prediction_policies_ok_runs"] = {p: cnt.get("ok:pred=%s" % p, 0) for p in PRED_PROBED}
-    for f, vals in (("acc", ACC), ("pred", PRED), ("ktype", KTYPE), ("rdm", RDM), ("sub", SUBS)):
+    for v in VERB:
+        nsub = cnt.get("ok_runs_that_hit_small_iteration_limit_and_substepped:verbose=%s" % v, 0)
+        ctx.require(nsub >= ctx.n(8, 100), "only %d completed runs reached a small iteration limit and sub-stepped at --verbose=%s" % (nsub, v))
+    for f, vals in (("acc", ACC), ("pred", PRED), ("ktype", KTYPE), ("rdm", RDM), ("sub", SUBS), ("verb", VERB), ("itermax", ITER)):
         for v in vals:
             if cnt.get("ok:%s=%s" % (f, v), 0) == 0:
                 ctx.count("option_value_never_converged:%s=%s" % (f, v))
